@@ -195,6 +195,19 @@ class ExprMixin:
         val = module.assigns[name]
         if isinstance(val, ast.Constant):
             return self.e_Constant(val, st)
+        if isinstance(val, (ast.Set, ast.Tuple, ast.List)) and val.elts and all(isinstance(e, ast.Attribute) and isinstance(e.value, ast.Name) for e in val.elts):
+            # display of enum members / class attributes: evaluated in the defining module
+            saved_mod, saved_env = self.module, st.env
+            self.module, st.env = module, {}
+            try:
+                items = [box(self.eval(e, st), st) for e in val.elts]
+            except Unsupported:
+                items = None
+            finally:
+                self.module, st.env = saved_mod, saved_env
+            if items is not None:
+                kind = "set" if isinstance(val, ast.Set) else "seq"
+                return Sym(kind, Q.Literal(st, items), Spec(kind, Spec("prim")))
         if isinstance(val, (ast.Set, ast.Tuple, ast.List)) and all(isinstance(e, ast.Constant) for e in val.elts):
             items = [box(self.e_Constant(e, st), st) for e in val.elts]
             kind = "set" if isinstance(val, ast.Set) else "seq"
